@@ -31,21 +31,25 @@ const char* kItemName[] = {"nest+start", "nest+discard", "nest+connect+discard",
 // a counting allocator handed to spawn_detached / spawn_future: everything it serves must come back to it
 struct AllocCount { long allocs = 0, deallocs = 0, bytes = 0; };
 AllocCount g_ac;
+AllocCount g_ac_detached;  // the share of spawn_detached: freed by the time the operation has completed, hence before any join completes
 template <class T>
 struct cnt_alloc {
   using value_type = T;
+  int tag = 0;  // 1: handed to spawn_detached
   cnt_alloc() = default;
+  explicit cnt_alloc(int t) noexcept : tag(t) {}
   template <class U>
-  cnt_alloc(const cnt_alloc<U>&) noexcept {}
+  cnt_alloc(const cnt_alloc<U>& o) noexcept : tag(o.tag) {}
   T* allocate(size_t n) {
     T* p = (T*)::operator new(n * sizeof(T));
     usim::np_scope np;
     g_ac.allocs++;
     g_ac.bytes += (long)(n * sizeof(T));
+    if (tag == 1) g_ac_detached.allocs++;
     return p;
   }
   void deallocate(T* p, size_t n) noexcept {
-    { usim::np_scope np; g_ac.deallocs++; g_ac.bytes -= (long)(n * sizeof(T)); }
+    { usim::np_scope np; g_ac.deallocs++; g_ac.bytes -= (long)(n * sizeof(T)); if (tag == 1) g_ac_detached.deallocs++; }
     ::operator delete(p);
   }
   template <class U>
@@ -93,6 +97,18 @@ void join_hook(OpRec* r, void* arg) {
     if (g.started)
       KIT_CHECK(g.claimed && g.delivered != CH_NONE, "c08.join-early", "join completed while nested work %d (%s) is still running", i, kItemName[w->items[i].kind]);
   }
+  // ... and a nested operation has completed only when its own receiver has been completed (not merely its child)
+  for (int i = 0; i < w->nitems; ++i) {
+    SItem& it = w->items[i];
+    if ((it.kind == I_NEST_START || it.kind == I_ATTACH_START || it.kind == I_ATTACH_CANCEL) && w->gates[i].started) {
+      KIT_CHECK(it.rec.completions == 1, "c08.join-early", "join completed before the receiver of nested operation %d (%s) was completed", i, kItemName[it.kind]);
+      usim_probe("join after the nested receiver's completion");
+    }
+  }
+  // Only meaningful when no spawn_detached call can still be in progress (its allocation precedes admission): all workers done.
+  if (w->workers_done)
+    KIT_CHECK(g_ac_detached.allocs == g_ac_detached.deallocs, "c08.join-early", "join completed while %ld spawn_detached operation state(s) were still allocated (the spawned operation had not finished completing)",
+              g_ac_detached.allocs - g_ac_detached.deallocs);
   KIT_CHECK(r->channel == CH_VALUE, "c08.join-lost", "join completed with %s instead of value", ch_name(r->channel));
 }
 
@@ -143,7 +159,7 @@ void worker(World* w, Scope* scope, int me) {
         break;
       }
       case I_DETACHED: {
-        if (it.pre & 1) unifex::spawn_detached(unifex::then(gate_sender{g}, [](long) noexcept {}), *scope, cnt_alloc<std::byte>{});
+        if (it.pre & 1) unifex::spawn_detached(unifex::then(gate_sender{g}, [](long) noexcept {}), *scope, cnt_alloc<std::byte>{1});
         else unifex::spawn_detached(unifex::then(gate_sender{g}, [](long) noexcept {}), *scope);
         { usim::np_scope np; it.issue_end = seq(); }
         break;
@@ -410,6 +426,7 @@ void body_scope(const char* name) {
               g_ac.allocs, g_ac.deallocs, g_ac.bytes);
     if (g_ac.allocs) usim_probe("spawn allocator pairing checked");
     g_ac = AllocCount{};
+    g_ac_detached = AllocCount{};
   }
   { usim::np_scope np; delete w; }
 }
